@@ -246,8 +246,12 @@ NOT_APPLICABLE = {
     "C18": "Both sentences are about numeric results of bit-tricks and equality of two builds' observable values; deciding them needs bit-precise symbolic evaluation or execution, outside the static-analysis family. A structural proxy would fire on behaviour-preserving rewrites. The portable back-end is still covered by every other rule (config all-generic) and its width/stride/mask constants by R-GROUP-CONSTS under C02 (DESIGN.md section 7).",
 }
 
-# compile-fail witness corpus (W-BORROW / W-AUTO): always for C16 (7 s), thorough tier for the others
+# compile-fail witness corpus (W-BORROW / W-AUTO): every run for C16 (7 s), thorough tier for the others;
+# thorough tier of every property also runs the self-test of that property's mutation corpus
+for _p in PROPS:
+    PROPS[_p]["extra"] = []
 for _p in ("C02", "C06", "C07", "C14", "C15", "C16"):
-    PROPS[_p]["extra"] = [("witness", "hook")]
+    PROPS[_p]["extra"].append(("witness", "hook", "always" if _p == "C16" else "thorough"))
     PROPS[_p]["extra_technique"] = "compile-fail witnesses with twins (rustc borrowck / trait solver)"
-PROPS["C16"]["always_extra"] = True
+for _p in PROPS:
+    PROPS[_p]["extra"].append(("selfcheck", "hook", "thorough"))
